@@ -134,7 +134,7 @@ func (c *Chain) header(h int64) tmproto.Header {
 	return tmproto.Header{ChainID: ChainID, Height: h, AppHash: seedBytes(c.Seed(h)), Time: time.Unix(1700000000+h*5, 0).UTC()}
 }
 
-func New(cfg Config) (*Chain, error) {
+func newWorld(cfg Config) (*Chain, error) {
 	if cfg.Fishmen == nil {
 		cfg.Fishmen = []string{}
 	}
@@ -174,16 +174,24 @@ func New(cfg Config) (*Chain, error) {
 		c.bind("m_"+m, authtypes.NewModuleAddress(m).String())
 	}
 
-	enc := cosmoscmd.MakeEncodingConfig(app.ModuleBasics)
-	c.encCfg = enc
-	home, err := os.MkdirTemp("", "saoharness-home")
-	if err != nil {
-		return nil, err
+	for i := 0; i < cfg.Validators; i++ {
+		owner := &Account{Name: fmt.Sprintf("vo%d", i+1), Priv: secp256k1.GenPrivKeyFromSecret([]byte(fmt.Sprintf("valowner-%d-%d", cfg.WorldSeed, i)))}
+		owner.Addr = sdk.AccAddress(owner.Priv.PubKey().Address())
+		c.bind(owner.Name, owner.Addr.String())
+		valAddr := sdk.ValAddress(owner.Addr)
+		vv := &Validator{Name: fmt.Sprintf("v%d", i+1), ValAddr: valAddr, Owner: owner}
+		c.Vals = append(c.Vals, vv)
+		c.bind(vv.Name, valAddr.String())
 	}
-	defer os.RemoveAll(home)
-	a := app.New(log.NewNopLogger(), dbm.NewMemDB(), nil, true, map[int64]bool{}, home, 0, enc, simapp.EmptyAppOptions{}).(*app.App)
-	c.App = a
+	c.encCfg = cosmoscmd.MakeEncodingConfig(app.ModuleBasics)
+	return c, nil
+}
 
+// genesisState builds the genesis JSON of the world (one coherent denom, bonded validators).
+func (c *Chain) genesisState() ([]byte, error) {
+	cfg := c.Cfg
+	enc := c.encCfg
+	accs := c.Accs
 	gs := app.NewDefaultGenesisState(enc.Marshaler)
 	// auth + bank
 	var genAccs []authtypes.GenesisAccount
@@ -201,9 +209,7 @@ func New(cfg Config) (*Chain, error) {
 	var tmVals []*tmtypes.Validator
 	bonded := sdk.ZeroInt()
 	for i := 0; i < cfg.Validators; i++ {
-		owner := &Account{Name: fmt.Sprintf("vo%d", i+1), Priv: secp256k1.GenPrivKeyFromSecret([]byte(fmt.Sprintf("valowner-%d-%d", cfg.WorldSeed, i)))}
-		owner.Addr = sdk.AccAddress(owner.Priv.PubKey().Address())
-		c.bind(owner.Name, owner.Addr.String())
+		owner := c.Vals[i].Owner
 		cons := ed25519.GenPrivKeyFromSecret([]byte(fmt.Sprintf("valcons-%d-%d", cfg.WorldSeed, i)))
 		pkAny, err := codectypes.NewAnyWithValue(cons.PubKey())
 		if err != nil {
@@ -226,9 +232,6 @@ func New(cfg Config) (*Chain, error) {
 			return nil, err
 		}
 		tmVals = append(tmVals, tmtypes.NewValidator(tmpk, cfg.ValTokens/1_000_000))
-		vv := &Validator{Name: fmt.Sprintf("v%d", i+1), ValAddr: valAddr, Owner: owner}
-		c.Vals = append(c.Vals, vv)
-		c.bind(vv.Name, valAddr.String())
 	}
 	if cfg.Validators > 0 {
 		balances = append(balances, banktypes.Balance{Address: authtypes.NewModuleAddress(stakingtypes.BondedPoolName).String(), Coins: sdk.NewCoins(sdk.NewCoin(Denom, bonded))})
@@ -263,12 +266,27 @@ func New(cfg Config) (*Chain, error) {
 	}
 	gs[nodetypes.ModuleName] = enc.Marshaler.MustMarshalJSON(ng)
 
-	stateBytes, err := json.Marshal(gs)
+	return json.Marshal(gs)
+}
+
+func New(cfg Config) (*Chain, error) {
+	c, err := newWorld(cfg)
+	if err != nil {
+		return nil, err
+	}
+	enc := c.encCfg
+	home, err := os.MkdirTemp("", "saoharness-home")
+	if err != nil {
+		return nil, err
+	}
+	defer os.RemoveAll(home)
+	a := app.New(log.NewNopLogger(), dbm.NewMemDB(), nil, true, map[int64]bool{}, home, 0, enc, simapp.EmptyAppOptions{}).(*app.App)
+	c.App = a
+	stateBytes, err := c.genesisState()
 	if err != nil {
 		return nil, err
 	}
 	valUpdates := []abci.ValidatorUpdate{}
-	_ = tmVals
 	a.InitChain(abci.RequestInitChain{ChainId: ChainID, Validators: valUpdates, ConsensusParams: simapp.DefaultConsensusParams, AppStateBytes: stateBytes})
 	c.H = 1
 	hdr := c.header(1)
